@@ -39,7 +39,8 @@ is a fixed function of (check, family); the site is ``Msg.Block.Var[ctx]:<where>
 
 Deviations from DESIGN / things the code forced:
   * payload mutation is applied to each (entry, context) *base* payload (thorough: every structural base -- other
-    switch branches, all-options-off, empty, single-element) rather than to every generated payload (time budget);
+    switch branches, all-options-off, empty, single-element -- and every 128th variant) rather than to every generated
+    payload (time budget);
   * values are built one-leaf-at-a-time from two bases (all optional members present / all absent) instead of
     row-cyclic, so that every violation site can name the one leaf that deviates;
   * registrations whose (message, block, variable) does not exist in message_template.msg have no wire type and are
@@ -563,68 +564,107 @@ def _encode_own(acc: Acc, ent: Entry, block: Block, ctxval, vals) -> List[Tuple[
     return out
 
 
+def _is_raw_adapter(ent: Entry) -> bool:
+    return ent.adapter is not None and not hasattr(ent.ser, "TEMPLATE") and not hasattr(ent.ser, "TEMPLATES")
+
+
+def _own_payloads(acc: Acc, ent: Entry, block: Block, ctxval, dom: sg.Domain, pick) -> Tuple[List[Tuple[bytes, str]], Optional[str]]:
+    """Payloads the serializer itself produces for the variants selected by ``pick(j, tag)``; also the base tag."""
+    if _is_raw_adapter(ent):
+        vals = adapter_payloads(ent)
+        return [x for j, x in enumerate(vals) if pick(j, x[1])], (vals[0][1] if vals else None)
+    vals = own_values(ent, ctxval, dom)
+    mine = [x for j, x in enumerate(vals) if pick(j, x[1])]
+    return _encode_own(acc, ent, block, ctxval, mine), (vals[0][1] if vals else None)
+
+
 def unit_payload(item) -> dict:
-    """item = (entry index, slice k, slices n): variant j of every context is handled by slice j % n; slice 0 also does
-    mutation and cross-feeding."""
+    """Tier 1.  item = (entry index, slice k, slices n): variant j of every context is handled by slice j % n."""
     idx, k, n = item
     ent = _ENTRIES[idx]
     part = Part()
     acc = Acc(part)
     dom = sg.Domain(_THOROUGH)
     ctxs = context_values(ent, _THOROUGH)
-    bases: Dict[Any, List[Tuple[bytes, str]]] = {}
     n_own = 0
     for ctxval in ctxs:
         block = make_block(ent, ctxval)
-        if ent.adapter is not None and not hasattr(ent.ser, "TEMPLATE") and not hasattr(ent.ser, "TEMPLATES"):
-            vals = adapter_payloads(ent)
-            own = [x for j, x in enumerate(vals) if j % n == k]
-        else:
-            vals = own_values(ent, ctxval, dom)
-            mine = [x for j, x in enumerate(vals) if j % n == k]
-            own = _encode_own(acc, ent, block, ctxval, mine)
-        if k == 0 and vals:
-            # payloads that get mutated / cross-fed: the base of this context; thorough: every structural base as well
-            # (other branch heads of length/enum switches, the all-options-off base, empty / single-element forms)
-            struct_vals = [x for j, x in enumerate(vals)
-                           if j == 0 or (_THOROUGH and (x[1].endswith("base") or x[1] in ("none", "empty", "one", "empty-list")))]
-            if isinstance(struct_vals[0][0], bytes) and ent.adapter is not None and not hasattr(ent.ser, "TEMPLATE") \
-                    and not hasattr(ent.ser, "TEMPLATES"):
-                bases[ctxval] = list(struct_vals)
-            else:
-                got = _encode_own(Acc(Part()), ent, block, ctxval, struct_vals)  # failures are reported by the owning slice
-                if got and got[0][1] == vals[0][1]:
-                    bases[ctxval] = got
+        own, _ = _own_payloads(acc, ent, block, ctxval, dom, lambda j, tag: j % n == k)
         for j, (p, tag) in enumerate(own):
             n_own += 1
             for pod in (False, True):
                 check_payload(acc, ent, block, ctxval, p, tag, pod, 1, pformat=_THOROUGH or j < 8)
-    if k == 0:
-        cross: List[Tuple[bytes, str]] = []
-        for c, lst in bases.items():
-            p, tag = lst[0]
-            if p not in [x[0] for x in cross]:
-                cross.append((p, f"base-of{ctx_label(ent, c)}"))
-        for ctxval in ctxs:
-            block = make_block(ent, ctxval)
-            feed: List[Tuple[bytes, str]] = []
-            seen = set()
-            for p, tag in bases.get(ctxval, []):
-                for b, mt in sg.mutations(p, _THOROUGH):
-                    if b not in seen:
-                        seen.add(b)
-                        feed.append((b, f"{tag}~{mt}"))
-            if ent.ctx_field is not None:
-                own_b = {p for p, _ in bases.get(ctxval, [])}
-                feed += [(p, f"cross~{t}") for p, t in cross if p not in own_b]
-            for b, tag in feed:
-                for pod in (False, True):
-                    check_payload(acc, ent, block, ctxval, b, tag, pod, 2, pformat=False)
-            part.count("tier2_payloads", len(feed))
-        part.sample({"family": "payload", "key": ent.keystr, "serializer": ent.adapter_kind, "ctx_field": ent.ctx_field, "contexts": len(ctxs),
-                     "contexts_with_template": len(bases), "base_payload": next(iter(bases.values()))[0][0] if bases else None}, limit=1)
     part.count("tier1_payloads", n_own)
     part.count("payload_units")
+    acc.flush()
+    return part.dump()
+
+
+_STRUCTURAL = ("none", "empty", "one", "empty-list")
+
+
+def _bases(ent: Entry, ctxs, dom: sg.Domain) -> Dict[Any, List[Tuple[bytes, str]]]:
+    """Payloads that get mutated / cross-fed: the base of each context; thorough: every structural base as well (other
+    branch heads of length/enum switches, the all-options-off base, empty / single-element forms) and every 128th variant."""
+    bases: Dict[Any, List[Tuple[bytes, str]]] = {}
+    for ctxval in ctxs:
+        block = make_block(ent, ctxval)
+        got, base_tag = _own_payloads(Acc(Part()), ent, block, ctxval, dom,  # encode failures are reported by tier 1
+                                      lambda j, tag: j == 0 or (_THOROUGH and (tag.endswith("base") or tag in _STRUCTURAL or j % 128 == 0)))
+        if got and got[0][1] == base_tag:
+            bases[ctxval] = got
+    return bases
+
+
+def tier2_feed(ent: Entry, dom: sg.Domain) -> List[Tuple[Any, bytes, str]]:
+    """(context, payload, tag) for every 'payload it accepts' candidate, in a fixed order."""
+    ctxs = context_values(ent, _THOROUGH)
+    bases = _bases(ent, ctxs, dom)
+    cross: List[Tuple[bytes, str]] = []
+    for c, lst in bases.items():
+        p, tag = lst[0]
+        if p not in [x[0] for x in cross]:
+            cross.append((p, f"base-of{ctx_label(ent, c)}"))
+    feed: List[Tuple[Any, bytes, str]] = []
+    for ctxval in ctxs:
+        seen = set()
+        for p, tag in bases.get(ctxval, []):
+            for b, mt in sg.mutations(p, _THOROUGH):
+                if b not in seen:
+                    seen.add(b)
+                    feed.append((ctxval, b, f"{tag}~{mt}"))
+        if ent.ctx_field is not None:
+            own_b = {p for p, _ in bases.get(ctxval, [])}
+            feed += [(ctxval, p, f"cross~{t}") for p, t in cross if p not in own_b]
+    return feed
+
+
+def unit_tier2(item) -> dict:
+    """Tier 2.  item = (entry index, slice k, slices n) over the fixed-order feed."""
+    idx, k, n = item
+    ent = _ENTRIES[idx]
+    part = Part()
+    acc = Acc(part)
+    dom = sg.Domain(_THOROUGH)
+    feed = tier2_feed(ent, dom)
+    blocks: Dict[Any, Block] = {}
+    cnt = 0
+    for j, (ctxval, b, tag) in enumerate(feed):
+        if j % n != k:
+            continue
+        block = blocks.get(ctxval)
+        if block is None:
+            block = blocks[ctxval] = make_block(ent, ctxval)
+        cnt += 1
+        for pod in (False, True):
+            check_payload(acc, ent, block, ctxval, b, tag, pod, 2, pformat=False)
+    part.count("tier2_payloads", cnt)
+    part.count("tier2_units")
+    if k == 0:
+        first = next((x for x in feed), None)
+        part.sample({"family": "payload", "key": ent.keystr, "serializer": ent.adapter_kind, "ctx_field": ent.ctx_field,
+                     "contexts": len(context_values(ent, _THOROUGH)), "tier2_candidates": len(feed),
+                     "first_candidate": {"ctx": first[0], "payload": first[1], "tag": first[2]} if first else None}, limit=1)
     acc.flush()
     return part.dump()
 
@@ -642,7 +682,7 @@ def unit_cache(ent: Entry) -> dict:
         if ent.kind == "int":
             raws = sg.small_int_alphabet(ent.wire)
         else:
-            if ent.adapter is not None and not hasattr(ser, "TEMPLATE") and not hasattr(ser, "TEMPLATES"):
+            if _is_raw_adapter(ent):
                 raws = [p for p, _ in adapter_payloads(ent)]
             else:
                 raws = [p for p, _ in _encode_own(Acc(Part()), ent, block, ctxval, own_values(ent, ctxval, dom)[:12])]
@@ -711,6 +751,8 @@ def _work(item) -> dict:
         return unit_int(_ENTRIES[item[1]])
     if kind == "payload":
         return unit_payload(item[1:])
+    if kind == "tier2":
+        return unit_tier2(item[1:])
     if kind == "cache":
         return unit_cache(_ENTRIES[item[1]])
     raise ValueError(kind)
@@ -768,6 +810,8 @@ def run(run: Run):
         if e.kind == "payload":
             n = _slices(e)
             (heavy if n > 1 else units).extend(("payload", e.idx, k, n) for k in range(n))
+            n2 = max(1, min(32, len(tier2_feed(e, sg.Domain(_THOROUGH))) // 1500))
+            (heavy if n2 > 1 else units).extend(("tier2", e.idx, k, n2) for k in range(n2))
     for e in ents:
         if e.kind == "int" and not e.is_date:
             (heavy if sg.INT_BITS[e.wire] == 16 or e.ctx_field else units).append(("int", e.idx))
@@ -815,7 +859,8 @@ def run(run: Run):
         "an integer of the wire type is a loss",
         "a payload is 'accepted' iff deserialize returns and all lazy members parse; rejected payloads are outside the property",
         "payload values are finite-or-infinite floats without NaN; the pod literal clause is evaluated for finite numbers only",
-        "payload mutation is applied to the base payload of every (entry, context), not to every generated payload",
+        "payload mutation is applied to the base payload of every (entry, context) (thorough: + structural bases + every 128th variant), "
+        "not to every generated payload",
         "date entries are recognised by adapter class DateAdapter; other entries run under TZ=UTC only",
     ]
     if not _THOROUGH:
